@@ -71,6 +71,41 @@ type Case struct {
 	// (lazily built tables, sync.Once-like guards). Jobs: the encode jobs, then decode jobs
 	// whose inputs are the streams the encode jobs of the same frame returned.
 	Cold bool `json:",omitempty"`
+	// Bits / SPPs, when present, give frame i of the pool its own precision (BitsStored; the
+	// container is one byte up to 8 bits, two above) and component count, so that one codec serves
+	// calls of different depth at the same time (tables or caches keyed by precision, buffers
+	// sized by bytes per sample). shape() narrows them to what the target supports.
+	Bits []int `json:",omitempty"`
+	SPPs []int `json:",omitempty"`
+}
+
+// shape returns the precision and component count of pool frame i as the target receives it.
+func (c *Case) shape(target string, frame int) (bits, spp int) {
+	bits, spp = 8, c.SPP
+	k := frame % len(c.Seeds)
+	if len(c.Bits) > 0 {
+		bits = c.Bits[k%len(c.Bits)]
+	}
+	if len(c.SPPs) > 0 {
+		spp = c.SPPs[k%len(c.SPPs)]
+	}
+	switch target {
+	case "50":
+		bits = 8
+	case "51":
+		if bits > 8 {
+			bits, spp = 12, 1
+		} else {
+			bits = 8
+		}
+	case "RLE":
+		if bits > 8 {
+			bits = 16
+		} else {
+			bits = 8
+		}
+	}
+	return
 }
 
 func (c *Case) dims(frame int) (int, int) {
@@ -95,6 +130,12 @@ func Gen(t *rapid.T) *Case {
 				rapid.OneOf(rapid.IntRange(1, 20), rapid.IntRange(33, 80), rapid.IntRange(128, 144)).Draw(t, "fh")})
 		}
 	}
+	if rapid.Bool().Draw(t, "mixed-depths") {
+		for i := 0; i < np; i++ {
+			c.Bits = append(c.Bits, rapid.SampledFrom([]int{8, 8, 10, 12, 16, 5}).Draw(t, "bits"))
+			c.SPPs = append(c.SPPs, rapid.SampledFrom([]int{1, 1, 3}).Draw(t, "fspp"))
+		}
+	}
 	maxJobs := 24
 	if core.Thorough() {
 		maxJobs = 64
@@ -114,18 +155,24 @@ func Gen(t *rapid.T) *Case {
 	return c
 }
 
-func (c *Case) info(frame int) *imagetypes.FrameInfo {
+func (c *Case) info(target string, frame int) *imagetypes.FrameInfo {
+	bits, spp := c.shape(target, frame)
 	pi := "MONOCHROME2"
-	if c.SPP == 3 {
+	if spp == 3 {
 		pi = "RGB"
 	}
+	ba := 8
+	if bits > 8 {
+		ba = 16
+	}
 	w, h := c.dims(frame)
-	return &imagetypes.FrameInfo{Width: uint16(w), Height: uint16(h), BitsAllocated: 8, BitsStored: 8, HighBit: 7, SamplesPerPixel: uint16(c.SPP), PhotometricInterpretation: pi}
+	return &imagetypes.FrameInfo{Width: uint16(w), Height: uint16(h), BitsAllocated: uint16(ba), BitsStored: uint16(bits), HighBit: uint16(bits - 1), SamplesPerPixel: uint16(spp), PhotometricInterpretation: pi}
 }
 
-func (c *Case) frame(i int) []byte {
+func (c *Case) frame(target string, i int) []byte {
 	w, h := c.dims(i)
-	im := &gen.Image{W: w, H: h, C: c.SPP, P: 8, Class: "noise", Seed: c.Seeds[i%len(c.Seeds)]}
+	bits, spp := c.shape(target, i)
+	im := &gen.Image{W: w, H: h, C: spp, P: bits, Class: "noise", Seed: c.Seeds[i%len(c.Seeds)]}
 	return im.Bytes()
 }
 
@@ -135,11 +182,12 @@ type result struct {
 }
 
 func runJob(c *Case, j Job, shared map[string]dcodec.Parameters, encoded map[string][]byte) result {
-	px := c.frame(j.Frame)
+	px := c.frame(j.Target, j.Frame)
 	fw, fh := c.dims(j.Frame)
+	bits, spp := c.shape(j.Target, j.Frame)
 	switch j.Target {
 	case "j2kobj":
-		p := jpeg2000.DefaultEncodeParams(fw, fh, c.SPP, 8, false)
+		p := jpeg2000.DefaultEncodeParams(fw, fh, spp, bits, false)
 		p.NumLevels = 2
 		s, err := jpeg2000.NewEncoder(p).Encode(px)
 		if err != nil {
@@ -154,7 +202,7 @@ func runJob(c *Case, j Job, shared map[string]dcodec.Parameters, encoded map[str
 		}
 		return result{out: d.GetPixelData()}
 	case "jlossless":
-		s, err := jl.Encode(px, fw, fh, c.SPP, 8, 4)
+		s, err := jl.Encode(px, fw, fh, spp, bits, 4)
 		if err != nil {
 			return result{err: err.Error()}
 		}
@@ -167,7 +215,7 @@ func runJob(c *Case, j Job, shared map[string]dcodec.Parameters, encoded map[str
 		}
 		return result{out: o}
 	case "jls":
-		s, err := jlsl.Encode(px, fw, fh, c.SPP, 8)
+		s, err := jlsl.Encode(px, fw, fh, spp, bits)
 		if err != nil {
 			return result{err: err.Error()}
 		}
@@ -191,7 +239,7 @@ func runJob(c *Case, j Job, shared map[string]dcodec.Parameters, encoded map[str
 	case "shared":
 		par = shared[j.Target]
 	}
-	info := c.info(j.Frame)
+	info := c.info(j.Target, j.Frame)
 	src := codec.NewTestPixelData(info)
 	if j.Op == "encode" {
 		_ = src.AddFrame(px)
@@ -470,6 +518,9 @@ func Check(c *Case) (o core.Outcome) {
 	if len(c.Dims) > 0 {
 		o.Label("mixed-frame-sizes")
 	}
+	if len(c.Bits) > 0 {
+		o.Label("mixed-depths")
+	}
 	return
 }
 
@@ -497,6 +548,9 @@ func TestSharedParams(t *testing.T) {
 			// the same with a pool of frames of very different sizes
 			m := &Case{Procs: procs, W: 12, H: 9, SPP: 1, Seeds: []uint64{1, 2, 3}, Dims: [][2]int{{8, 8}, {64, 64}, {40, 3}}, Jobs: c.Jobs}
 			core.Eval(t, ID, "quota", m, Check)
+			// ... and of different precision and component count
+			d := &Case{Procs: procs, W: 12, H: 9, SPP: 1, Seeds: []uint64{1, 2, 3}, Dims: [][2]int{{8, 8}, {33, 20}, {40, 3}}, Bits: []int{8, 12, 16}, SPPs: []int{1, 3, 1}, Jobs: c.Jobs}
+			core.Eval(t, ID, "quota", d, Check)
 			// large enough for full-size code-blocks in every sub-band position
 			if k == "90" || k == "91" || k == "201" || k == "202" || k == "203" {
 				l := &Case{Procs: procs, W: 12, H: 9, SPP: 1, Seeds: []uint64{1, 2, 3}, Dims: [][2]int{{136, 130}, {128, 128}, {160, 129}}, Jobs: c.Jobs}
@@ -518,7 +572,9 @@ func TestColdStart(t *testing.T) {
 		if idx%shards != shard {
 			continue
 		}
-		c := &Case{Procs: 16, W: 24, H: 16, SPP: []int{1, 3}[(idx+seed)%2], Cold: true}
+		// every depth twice: two first calls may build the same per-precision table, and calls of
+		// different depth meet in whatever is keyed by precision
+		c := &Case{Procs: 16, W: 24, H: 16, SPP: []int{1, 3}[(idx+seed)%2], Cold: true, Bits: []int{8, 12, 16, 10}}
 		for i := 0; i < 8; i++ {
 			c.Seeds = append(c.Seeds, uint64(seed*100+i))
 		}
